@@ -2,6 +2,7 @@ package go_clipper2
 
 import (
 	"math"
+	"math/bits"
 
 	"github.com/govalues/decimal"
 )
@@ -40,8 +41,18 @@ func Area64(path Path64) float64 {
 
 	var a int64 = 0
 	prevPt := path[len(path)-1]
-	for _, pt := range path {
-		a += (prevPt.Y + pt.Y) * (prevPt.X - pt.X)
+	for i, pt := range path {
+		sy, dx := prevPt.Y+pt.Y, prevPt.X-pt.X
+		if hi, lo := bits.Mul64(uint64(absInt(sy)), uint64(absInt(dx))); hi != 0 || lo >= 1<<62 {
+			// the 64-bit product would wrap: sum the remaining terms in floating point, as upstream does
+			af := float64(a)
+			for _, pt2 := range path[i:] {
+				af += float64(prevPt.Y+pt2.Y) * float64(prevPt.X-pt2.X)
+				prevPt = pt2
+			}
+			return af * 0.5
+		}
+		a += sy * dx
 		prevPt = pt
 	}
 
